@@ -1,6 +1,7 @@
 (* C04 — the independent specification: the duration a template denotes at exact (decimal) parameter values.
    Plain rational arithmetic, no number kinds, no programs, no closed forms: sequence = sum, repetition = count x
-   body, iteration = sum over the values of the integer range, table = latest entry, parallel = the common duration.
+   body, iteration = sum over the values of the integer range, table = latest entry of any channel, parallel = the common
+   duration, mapping = the body at the mapped parameter values (renaming / dropping channels changes nothing).
    `None` = the template has no meaningful duration at these parameters (negative duration or count, non-integer
    count or range bound, zero step, parallel parts of different length, missing parameter): the property demands
    nothing there except that the implementation does not silently produce disagreeing numbers. *)
@@ -45,8 +46,8 @@ Definition all_eq (d : Q) (l : list Q) : bool := forallb (Qeqb d) l.
 Fixpoint den (p : pt) (e : qenv) : option Q :=
   match p with
   | PAtom _ _ d => let? q := qeval e d in if Qleb 0 q then Some q else None
-  | PTable _ chans =>
-      let? vals := oall (map (fun ts => oall (map (qeval e) ts)) chans) in
+  | PTable chans =>             (* the latest entry over ALL channels, whatever a channel mapping does with them *)
+      let? vals := oall (map (fun ts => oall (map (qeval e) ts)) (map snd chans)) in
       if forallb (fun ts => match ts with v :: _ => Qleb 0 v && sortedq ts | [] => false end) vals then
         match map (fun ts => last ts 0) vals with
         | [] => None
@@ -64,7 +65,8 @@ Fixpoint den (p : pt) (e : qenv) : option Q :=
       let? qs := qeval e s in let? is := qint qs in
       if (is =? 0)%Z then None else
       let? ds := oall (map (fun v => den body ((i, Qred (inject_Z v)) :: e)) (zrange ia ib is)) in Some (qsum ds)
-  | PMap m b =>
+  | PMap m _ b =>               (* all right hand sides in the outer environment (simultaneous); channel names,
+                                   renamed or dropped, have no influence on how long a template lasts *)
       let? vs := oall (map (fun xe => let? v := qeval e (snd xe) in Some (fst xe, Qred v)) m) in
       den b (vs ++ e)
   | PMulti decl subs =>
